@@ -21,7 +21,7 @@ Proof.
   pose proof eps_idx_pos as He.
   assert (Rltb c (- / 2 - eps_idx RO) = false) as -> by (apply Rltb_false; lra).
   assert (Rltb (IZR n - / 2 + eps_idx RO) c = false) as -> by (apply Rltb_false; lra).
-  cbn [orb]. eexists; split; [reflexivity|].
+  cbn [orb isnan RO]. eexists; split; [reflexivity|].
   set (v := clipf RO c 0 (IZR (n - 1))).
   assert (Hv : 0 <= v <= IZR (n - 1)).
   { unfold v, clipf, fmin, fmax. cbn [ltb RO]. assert (0 <= IZR (n - 1)) by (apply (IZR_le 0); lia).
@@ -187,11 +187,12 @@ Theorem freeze_contains_points d fres fshape geo mode aou pts fr :
   forall p, In p pts -> exists x' (k : Z),
     x' = fst p - (if f_pm180 fr then 180 else 0) + 360 * IZR k /\ (geo = false -> x' = fst p) /\
     inside (f_area fr) x' (snd p) /\
-    (~ (geo = true /\ mode = MGlobal) -> strictly_inside (f_area fr) x' (snd p)).
+    (~ (geo = true /\ mode = MGlobal) -> strictly_inside (f_area fr) x' (snd p)) /\
+    x' = frozen_x geo mode pts (fst p).
 Proof.
   intros Hex Hv Hr Hs HA HG. unfold freeze. rewrite Hex.
   destruct (bound_centers RO wrapR geo mode pts) as [[[pm xc] y0] y1] eqn:B.
-  destruct (bound_centers_spec geo mode pts pm xc y0 y1 Hv B) as (Hy & HY & HX & Hpm).
+  destruct (bound_centers_spec geo mode pts pm xc y0 y1 Hv B) as (Hy & HY & HX & Hpm & _).
   destruct (compute_domain RO xc y0 y1 (eff_res d fres) (eff_shape d fshape) aou) as [[[[[[x0 ymn] x1] ymx] w] h]|] eqn:C; [|discriminate].
   intros I; inversion I; subst fr; clear I. cbn [f_area f_pm180].
   assert (Hxc : match xc with Some (a, b) => a <= b | None => True end) by (destruct xc as [[a b]|]; [apply HX | exact I]).
@@ -199,15 +200,16 @@ Proof.
   assert (Ha : pos_area (mk_area x0 ymn x1 ymx w h)) by (repeat split; cbn; auto; lra).
   split; [exact Ha|]. split; [exact Hpm|]. intros p Hp. specialize (HY p Hp).
   destruct xc as [[a b]|].
-  - destruct HX as [_ HX]. destruct (HX p Hp) as (x' & k & Ex & Hab & Hg). exists x', k.
-    split; [exact Ex|]. split; [exact Hg|]. split.
+  - destruct HX as [_ HX]. destruct (HX p Hp) as (x' & k & Ex & Hab & Hg & Hf). exists x', k.
+    split; [exact Ex|]. split; [exact Hg|]. split; [|split; [|exact Hf]].
     + apply inside_of_bounds; cbn; auto; lra.
     + intros _. apply strictly_inside_of_bounds; cbn; auto; lra.
   - destruct HX as (Hg & Hm & Hp0). subst pm. exists (fst p), 0%Z.
     split; [lra|]. split; [reflexivity|].
-    pose proof (proj1 (Forall_forall _ _) (HG Hg Hm) p Hp) as Hin. cbn beta in Hin. split.
+    pose proof (proj1 (Forall_forall _ _) (HG Hg Hm) p Hp) as Hin. cbn beta in Hin. split; [|split].
     + apply inside_of_bounds; cbn; auto; lra.
     + intros N. exfalso. apply N. auto.
+    + unfold frozen_x. subst mode. destruct (antimeridian_branch geo pts); reflexivity.
 Qed.
 
 (* explicit extent and size are kept; no data is looked at *)
@@ -319,11 +321,6 @@ Proof.
 Qed.
 
 (* ------------------------------------------------------------------ antimeridian modes *)
-(* when the antimeridian branch is taken (geographic CRS, x span > 355, not at a pole) *)
-Definition antimeridian_branch (geo : bool) (pts : list (R * R)) : bool :=
-  let xs := map fst pts in let ys := map snd pts in
-  geo && passes_antimeridian RO (nanmin RO xs) (nanmax RO xs) && negb (y_is_pole RO (nanmin RO ys) (nanmax RO ys)).
-
 Theorem bound_centers_modes geo mode pts : valid_pts pts ->
   let xs := map fst pts in let ys := map snd pts in
   let wx := map wrapR xs in
@@ -337,6 +334,7 @@ Theorem bound_centers_modes geo mode pts : valid_pts pts ->
     else (false, Some (nanmin RO xs, nanmax RO xs), nanmin RO ys, nanmax RO ys).
 Proof.
   intros (Hne & Hx & Hy). unfold bound_centers, antimeridian_branch. rewrite gen_am_test_char, new_x_corners_char.
+  destruct (map_clean_xy RO pts) as [-> ->].
   rewrite (map_clean_id fst pts Hx), (map_clean_id snd pts Hy).
   destruct (_ && _ && _); [|reflexivity]. destruct mode; reflexivity.
 Qed.
@@ -356,3 +354,36 @@ Qed.
 
 Lemma Rltb_lt a b : a < b -> Rltb a b = true. Proof. intros; apply Rltb_true; assumption. Qed.
 Lemma Rltb_ge a b : b <= a -> Rltb a b = false. Proof. intros; apply Rltb_false; assumption. Qed.
+
+(* ------------------------------------------------------------------ +pm=180 exactly in the modify_crs branch *)
+Theorem freeze_pm180_iff d fres fshape geo mode aou pts fr :
+  explicit_area d fshape = None -> valid_pts pts ->
+  freeze RO wrapR d fres fshape geo mode aou pts = Some fr ->
+  f_pm180 fr = (antimeridian_branch geo pts && match mode with MCrs => true | _ => false end).
+Proof.
+  intros Hex Hv. unfold freeze. rewrite Hex.
+  destruct (bound_centers RO wrapR geo mode pts) as [[[pm xc] y0] y1] eqn:B.
+  destruct (bound_centers_spec geo mode pts pm xc y0 y1 Hv B) as (_ & _ & _ & _ & Hpm).
+  destruct (compute_domain RO xc y0 y1 (eff_res d fres) (eff_shape d fshape) aou) as [[[[[[x0 ymn] x1] ymx] w] h]|]; [|discriminate].
+  intros I; inversion I; subst fr. exact Hpm.
+Qed.
+
+(* ------------------------------------------------------------------ optimize_projection = True *)
+(* compute_optimal_bb_area: whatever projection parameters and uniform shape PROJ / Geod come up with, the area frozen on
+   all the positions of the swath contains every one of them *)
+Theorem optimal_bb_area_contains h w geo aou pts fr :
+  (1 <= h)%Z -> (1 <= w)%Z -> valid_pts pts -> aou_west aou < aou_east aou ->
+  optimal_bb_area RO wrapR h w geo aou pts = Some fr ->
+  pos_area (f_area fr) /\ width (f_area fr) = w /\ height (f_area fr) = h /\
+  forall p, In p pts -> exists x',
+    x' = frozen_x geo MNone pts (fst p) /\ (geo = false -> x' = fst p) /\
+    strictly_inside (f_area fr) x' (snd p) /\ inside (f_area fr) x' (snd p).
+Proof.
+  intros Hh Hw Hv HA E. unfold optimal_bb_area in E.
+  assert (Hex : explicit_area (mk_dyn None None None (@RNone R)) (Some (Some h, Some w)) = None) by reflexivity.
+  destruct (freeze_contains_points (mk_dyn None None None RNone) RNone (Some (Some h, Some w)) geo MNone aou pts fr Hex Hv I (conj Hw Hh) HA ltac:(discriminate) E) as (Ha & _ & HP).
+  destruct (freeze_shape_kept (mk_dyn None None None RNone) RNone (Some (Some h, Some w)) geo MNone aou pts fr h w Hex eq_refl E) as [Ew Eh].
+  split; [exact Ha|]. split; [exact Ew|]. split; [exact Eh|].
+  intros p Hp. destruct (HP p Hp) as (x' & k & _ & Hg & Hin & Hs & Hf). exists x'.
+  split; [exact Hf|]. split; [exact Hg|]. split; [apply Hs; intros [_ N]; discriminate | exact Hin].
+Qed.
